@@ -223,7 +223,15 @@ func TestC16(t *testing.T) {
 			rng := r.Rand("ecdsa/" + d.c.Name)
 			cases := genEcdsa(d, rng)
 			if quick && d.c.Name == "P-384" {
-				cases = pick(rng, cases, 10)
+				var sentinels, rest []*ecdsaCase
+				for _, c := range cases {
+					if strings.HasPrefix(c.Class, "coincide:") {
+						sentinels = append(sentinels, c)
+					} else {
+						rest = append(rest, c)
+					}
+				}
+				cases = append(pick(rng, rest, 10), sentinels...)
 			}
 			for _, c := range cases {
 				c := c
